@@ -2,7 +2,7 @@
 """Regenerate MANIFEST.json from engine/*.check.json (run after adding a check)."""
 import json, os, subprocess, sys
 sys.path.insert(0, os.path.dirname(os.path.abspath(__file__)))
-from checks import CHECKS
+from checks import READY as CHECKS
 VERIF = os.path.dirname(os.path.dirname(os.path.abspath(__file__)))
 
 props = [json.loads(l) for l in open(os.path.join(VERIF, "properties.jsonl")) if l.strip()]
